@@ -339,16 +339,7 @@ func c19Adapter(c *core.Ctx, r *c19run, pkg *packages.Package, fd *ast.FuncDecl,
 	lpm := parentMap(lit)
 	commSend := map[ast.Stmt]bool{}  // comm clauses whose communication sends on the returned channel
 	commClose := map[ast.Stmt]bool{} // comm clauses receiving from a channel field of the syncer (Close)
-	var chanFields []*types.Var
-	if nt := namedType(c, c19pkg, "syncer"); nt != nil {
-		if stt, ok := nt.Underlying().(*types.Struct); ok {
-			for i := 0; i < stt.NumFields(); i++ {
-				if _, ok := stt.Field(i).Type().Underlying().(*types.Chan); ok {
-					chanFields = append(chanFields, stt.Field(i))
-				}
-			}
-		}
-	}
+	chanFields := r.doneFields()
 	inSelect := map[*ast.SendStmt]bool{}
 	for _, s := range sends {
 		if cc, ok := lpm[s].(*ast.CommClause); ok && cc.Comm == s {
